@@ -63,6 +63,8 @@ type RetryOpts struct {
 	KeepAliveSec        int    `json:"keepAliveSec,omitempty"` // ConnectOption WithKeepAlive
 	ManualSwitch        string `json:"manualSwitch,omitempty"` // the scripted make-before-break run of manual.go ("handleFirst" | "handleAfter")
 	ManualQoS           int    `json:"manualQoS,omitempty"`
+	StopApps            int    `json:"stopApps,omitempty"` // the SetClient / submit / Disconnect run of manual.go (binding of RetryStop.tla)
+	StopSkewUs          int    `json:"stopSkewUs,omitempty"`
 	PromptAcks          bool   `json:"promptAcks,omitempty"`     // Write returns only after the client's reader consumed the broker's answer
 	HoldLoopWakeMs      int    `json:"holdLoopWakeMs,omitempty"` // delay the reconnect loop when it wakes up (hook reconnLoopWake): the keep-alive goroutine goes first
 	SampleAfterMs       int    `json:"sampleAfterMs,omitempty"`
@@ -100,6 +102,9 @@ func runRetryRaw(raw json.RawMessage) interface{} {
 	}
 	if sc.Opts.ManualSwitch != "" {
 		return runManualSwitch(&sc)
+	}
+	if sc.Opts.StopApps > 0 {
+		return runStopRace(&sc)
 	}
 	return runRetry(&sc)
 }
